@@ -259,6 +259,31 @@ type vpMarkTF struct{}
 
 func (vpMarkTF) Transform(s string) (string, error) { return s + "!", nil }
 
+// vpShiftTF moves every byte to its successor: injective and not idempotent
+// like the marker, but its renames chain - the image of one key can be the
+// original spelling of another key of the same map.
+type vpShiftTF struct{}
+
+func (vpShiftTF) Transform(s string) (string, error) { return vpShift(s), nil }
+
+func vpShift(s string) string {
+	out := ""
+	for i := 0; i < len(s); i++ {
+		out += string(rune(s[i] + 1))
+	}
+	return out
+}
+
+var vpUseShift bool
+
+// vpTF is the expected image of one string under the transformer in use.
+func vpTF(s string) string {
+	if vpUseShift {
+		return vpShift(s)
+	}
+	return s + "!"
+}
+
 // vpGen builds a value and, independently, its expected image under T.
 func vpGen(depth int) (val, want any) {
 	maxKind := 3
@@ -268,7 +293,7 @@ func vpGen(depth int) (val, want any) {
 	switch vpInt(0, maxKind) {
 	case 0:
 		s := vpStrUpTo(1, "a-b")
-		return s, s + "!"
+		return s, vpTF(s)
 	case 1:
 		return 5, 5
 	case 2:
@@ -288,7 +313,7 @@ func vpGen(depth int) (val, want any) {
 		v, w := make([]string, 0, n), make([]string, 0, n)
 		for i := 0; i < n; i++ {
 			s := vpStrUpTo(1, "a-b")
-			v, w = append(v, s), append(w, s+"!")
+			v, w = append(v, s), append(w, vpTF(s))
 		}
 		return v, w
 	case 6: // map[string]any
@@ -302,13 +327,13 @@ func vpGen(depth int) (val, want any) {
 			}
 			keys = append(keys, k)
 			cv, cw := vpGen(depth - 1)
-			v[k], w[k+"!"] = cv, cw
+			v[k], w[vpTF(k)] = cv, cw
 		}
 		if !vpSymbolic() && n > 0 {
 			// natively only: enough entries for Go's runtime to re-visit entries inserted during iteration
 			for i := 0; i < 40; i++ {
 				pk := "vp-pad-" + string(rune('a'+i%26)) + string(rune('a'+i/26))
-				v[pk], w[pk+"!"] = "p", "p!"
+				v[pk], w[vpTF(pk)] = "p", vpTF("p")
 			}
 		}
 		return v, w
@@ -323,12 +348,12 @@ func vpGen(depth int) (val, want any) {
 			}
 			keys = append(keys, k)
 			s := vpStrUpTo(1, "a-b")
-			v[k], w[k+"!"] = s, s+"!"
+			v[k], w[vpTF(k)] = s, vpTF(s)
 		}
 		if !vpSymbolic() && n > 0 {
 			for i := 0; i < 40; i++ {
 				pk := "vp-pad-" + string(rune('a'+i%26)) + string(rune('a'+i/26))
-				v[pk], w[pk+"!"] = "p", "p!"
+				v[pk], w[vpTF(pk)] = "p", vpTF("p")
 			}
 		}
 		return v, w
@@ -340,7 +365,7 @@ func vpGen(depth int) (val, want any) {
 			vpAssume(!v.Contains(k))
 			cv, cw := vpGen(depth - 1)
 			v.Set(k, cv)
-			w.Set(k+"!", cw)
+			w.Set(vpTF(k), cw)
 		}
 		return v, w
 	case 9: // *ordered.MapSS
@@ -351,13 +376,13 @@ func vpGen(depth int) (val, want any) {
 			vpAssume(!v.Contains(k))
 			s := vpStrUpTo(1, "a-b")
 			v.Set(k, s)
-			w.Set(k+"!", s+"!")
+			w.Set(vpTF(k), vpTF(s))
 		}
 		return v, w
 	default: // *Plugin (a selfInterpolater)
 		s := vpStrUpTo(1, "a-b")
 		cv, cw := vpGen(depth - 1)
-		return &Plugin{Source: s, Config: cv}, &Plugin{Source: s + "!", Config: cw}
+		return &Plugin{Source: s, Config: cv}, &Plugin{Source: vpTF(s), Config: cw}
 	}
 }
 
@@ -450,8 +475,13 @@ func vpDeepEq(got, want any) bool {
 }
 
 func vpH_c04_walkers() {
+	vpUseShift = vpBool()
 	val, want := vpGen(vpParam("depth"))
-	got, err := interpolateAny[any](vpMarkTF{}, val)
+	var tf stringTransformer = vpMarkTF{}
+	if vpUseShift {
+		tf = vpShiftTF{}
+	}
+	got, err := interpolateAny[any](tf, val)
 	vpAssert(err == nil, "walker: no error from an error-free transformer")
 	vpAssert(vpDeepEq(got, want), "walker: every string (keys and values) transformed exactly once, shape and order unchanged")
 }
